@@ -73,10 +73,11 @@ func (q gquery) String() string {
 }
 
 var (
-	reCanonInt = regexp.MustCompile(`^(0|[1-9][0-9]*)$`)
-	reCanonDec = regexp.MustCompile(`^(0|[1-9][0-9]*)\.[0-9]+$`)
-	reDate     = regexp.MustCompile(`^[0-9]{4}-[0-9]{2}-[0-9]{2}$`)
-	reTime     = regexp.MustCompile(`^[0-9]{4}-[0-9]{2}-[0-9]{2}T[0-9]{2}:[0-9]{2}:[0-9]{2}(\.[0-9]{1,9})?(Z|[+-][0-9]{2}:[0-9]{2})$`)
+	reCanonInt    = regexp.MustCompile(`^(0|[1-9][0-9]*)$`)
+	reCanonDec    = regexp.MustCompile(`^(0|[1-9][0-9]*)\.[0-9]+$`)
+	reSmallNumber = regexp.MustCompile(`^-?(0|[1-9][0-9]*)(\.[0-9]+)?$`)
+	reDate        = regexp.MustCompile(`^[0-9]{4}-[0-9]{2}-[0-9]{2}$`)
+	reTime        = regexp.MustCompile(`^[0-9]{4}-[0-9]{2}-[0-9]{2}T[0-9]{2}:[0-9]{2}:[0-9]{2}(\.[0-9]{1,9})?(Z|[+-][0-9]{2}:[0-9]{2})$`)
 )
 
 var maxInt64 = new(big.Int).SetUint64(1<<63 - 1)
@@ -208,9 +209,14 @@ func evalValue(c gcond, v string) tri {
 		if fitsInt64(v) && fitsInt64(c.Lit) {
 			return b(cmpHolds(c.Op, ratOf(v).Cmp(ratOf(c.Lit)))) // exact integers, whatever their size
 		}
-		return triU // text, decimal value against an integer operand, number beyond the 64-bit integers
+		if reSmallNumber.MatchString(v) && len(v) <= 15 && fitsInt64(c.Lit) {
+			// a negative integer or a decimal fraction is a number too: it compares by its value (-5 is not
+			// greater than 0, 5.9 is neither equal to 5 nor at most 5)
+			return b(cmpHolds(c.Op, ratOf(v).Cmp(ratOf(c.Lit))))
+		}
+		return triU // text, number beyond the 64-bit integers
 	case "float":
-		if (reCanonInt.MatchString(v) || reCanonDec.MatchString(v)) && len(v) <= 15 {
+		if reSmallNumber.MatchString(v) && len(v) <= 15 {
 			return b(cmpHolds(c.Op, ratOf(v).Cmp(ratOf(c.Lit))))
 		}
 		return triU
@@ -268,7 +274,7 @@ func evalCond(c gcond, events map[string][]string) (res tri, anyU bool) {
 // verdict of a whole query on one event map:
 //
 //	F  - some condition is definitely not satisfied: must not be delivered / returned
-//	T  - every condition definitely satisfied and no undefined comparison anywhere: must be delivered
+//	T  - every condition definitely satisfied by some value: must be delivered
 //	U  - otherwise (not asserted for the owner of the query)
 func (q gquery) eval(events map[string][]string) tri {
 	anyU := false
@@ -283,7 +289,10 @@ func (q gquery) eval(events map[string][]string) tri {
 			allT = false
 		}
 	}
-	if allT && !anyU {
+	// every condition is satisfied by some value: the query matches, whatever other values of the same attributes
+	// look like and in whatever order the application listed them
+	_ = anyU
+	if allT {
 		return triT
 	}
 	return triU
